@@ -10,6 +10,8 @@ package modbus
 // (spec/transport.spec); every Read delivers the next n bytes of it, any n, any error.
 
 //@ iface net.Conn.Read(p []byte) (n int, err error)
+//@   ensures dyntype(err) != *packet.ErrorResponseRTU && dyntype(err) != *packet.ErrorResponseTCP && dyntype(err) != *ClientError
+//@   requires[C14] muState == 2
 //@   modifies p
 //@   ensures 0 <= n && n <= len(p) && n <= streamLen - old(streamPos)
 //@   ensures forall k in 0..n :: p[k] == stream[old(streamPos) + k]
@@ -21,17 +23,24 @@ package modbus
 //@   ghostset lastBuf := p
 
 //@ iface net.Conn.Write(p []byte) (n int, err error)
+//@   ensures dyntype(err) != *packet.ErrorResponseRTU && dyntype(err) != *packet.ErrorResponseTCP && dyntype(err) != *ClientError
+//@   requires[C14] muState == 2
 //@   requires[C19] bwCount > writes ==> p == bwBuf
 //@   modifies nothing
 //@   ghostset writes := old(writes) + 1
 
 //@ iface net.Conn.SetWriteDeadline(t time.Time) (err error)
+//@   ensures dyntype(err) != *packet.ErrorResponseRTU && dyntype(err) != *packet.ErrorResponseTCP && dyntype(err) != *ClientError
+//@   requires[C14] muState == 2
 //@   modifies nothing
 
 //@ iface net.Conn.SetReadDeadline(t time.Time) (err error)
+//@   ensures dyntype(err) != *packet.ErrorResponseRTU && dyntype(err) != *packet.ErrorResponseTCP && dyntype(err) != *ClientError
+//@   requires[C14] muState == 2
 //@   modifies nothing
 
 //@ iface net.Conn.Close() (err error)
+//@   requires[C14] muState == 2
 //@   modifies nothing
 
 //@ iface context.Context.Done() (ch <-chan struct{})
@@ -39,21 +48,24 @@ package modbus
 
 //@ iface context.Context.Err() (err error)
 //@   modifies nothing
-//@   ensures err != nil && dyntype(err) != *ClientError
+//@   ensures err != nil && dyntype(err) != *ClientError && dyntype(err) != *packet.ErrorResponseRTU && dyntype(err) != *packet.ErrorResponseTCP
 //@   ghostset ctxErr := err
 
 //@ iface modbus.ClientHooks.BeforeWrite(toWrite []byte)
+//@   requires[C14] muState == 2
 //@   modifies nothing
 //@   ghostset bwCount := old(bwCount) + 1
 //@   ghostset bwBuf := toWrite
 
 //@ iface modbus.ClientHooks.AfterEachRead(received []byte, n int, err error)
+//@   requires[C14] muState == 2
 //@   requires[C19] n == lastN && err == lastErr && hookReads + 1 == reads
 //@   requires[C19] aliases(received, lastBuf, 0, lastN)
 //@   modifies nothing
 //@   ghostset hookReads := old(hookReads) + 1
 
 //@ iface modbus.ClientHooks.BeforeParse(received []byte)
+//@   requires[C14] muState == 2
 //@   requires[C19] bpCount == parseCount && received == lastDoRes
 //@   modifies nothing
 //@   ghostset bpCount := old(bpCount) + 1
@@ -69,7 +81,7 @@ package modbus
 //@   modifies nothing
 
 //@ iface modbus.Client.asProtocolErrorFunc(data []byte) (err error)
-//@   candidates packet.AsTCPErrorPacket, packet.AsRTUErrorPacket
+//@   candidates packet.AsTCPErrorPacket, packet.AsRTUErrorPacketWithCRC
 //@   modifies nothing
 
 //@ iface modbus.Client.parseResponseFunc(data []byte) (res packet.Response, err error)
@@ -82,8 +94,9 @@ package modbus
 // client.go
 
 //@ func (c *Client) do(ctx context.Context, data []byte, expectedLen int) (res []byte, err error)
-//@   requires c != nil && c.conn != nil && validClient(c)
+//@   requires c != nil && c.conn != nil && validClient(c) && ctx != nil
 //@   requires reads == hookReads && bwCount == writes
+//@   requires[C14] muState == 2
 //@   safety[C08,C07,C19]
 //@   modifies[C08] nothing
 //@   fresh[C07] res
@@ -94,6 +107,8 @@ package modbus
 //@   ensures[C19] c.hooks != nil ==> hookReads - old(hookReads) == reads - old(reads)
 //@   ensures[C19] c.hooks != nil && writes > old(writes) ==> bwCount - old(bwCount) == writes - old(writes)
 //@   ensures[C19] writes - old(writes) <= 1 && bpCount == old(bpCount) && parseCount == old(parseCount)
+//@   ensures[C12] dyntype(err) == *ClientError && dyntype(err.(*ClientError).Err) == *packet.ErrorResponseRTU ==> streamPos - old(streamPos) == 5 && crcTrailer(stream[old(streamPos):old(streamPos)+5], 5)
+//@   ensures[C14] muState == old(muState)
 //@   ghostset lastDoRes := res
 //@   loop 0
 //@     modifies received
@@ -101,3 +116,57 @@ package modbus
 //@     invariant forall k in 0..total :: received[k] == stream[old(streamPos) + k]
 //@     invariant c.hooks != nil ==> hookReads - old(hookReads) == reads - old(reads)
 //@     invariant writes == old(writes) + 1 && bwCount == old(bwCount) + ite(c.hooks != nil, int(1), int(0)) && bpCount == old(bpCount) && parseCount == old(parseCount)
+
+//@ func (c *Client) Do(ctx context.Context, req packet.Request) (resp packet.Response, err error)
+//@   requires c != nil && validClient(c) && ctx != nil
+//@   requires reads == hookReads && bwCount == writes && bpCount == parseCount
+//@   requires[C14] muState == 0
+//@   safety[C08,C14,C19]
+//@   lockdiscipline[C14]
+//@   guarded[C14] conn, address, hooks
+//@   modifies[C08] nothing
+//@   ensures[C08] err != nil ==> nilish(resp)
+//@   ensures[C08] req == nil ==> err != nil && writes == old(writes) && reads == old(reads)
+//@   ensures[C08] req != nil && c.conn == nil ==> err != nil && dyntype(err) == *ClientError && err.(*ClientError).Err == ErrClientNotConnected.Err && writes == old(writes) && reads == old(reads)
+//@   ensures[C08.classify] err != nil ==> req == nil || dyntype(err) == *ClientError || err == ctxErr || parseCount > old(parseCount)
+//@   ensures[C14] muState == 0
+//@   ensures[C19] c.hooks != nil && parseCount > old(parseCount) ==> bpCount == old(bpCount) + 1 && parseCount == old(parseCount) + 1
+//@   ensures[C19] c.hooks != nil ==> hookReads - old(hookReads) == reads - old(reads)
+
+//@ func (c *Client) Connect(ctx context.Context, address string) (err error)
+//@   requires c != nil && c.dialContextFunc != nil
+//@   requires[C14] muState == 0
+//@   safety[C14]
+//@   lockdiscipline[C14]
+//@   guarded[C14] conn, address
+//@   ensures[C14] muState == 0
+
+//@ func (c *Client) Close() (err error)
+//@   requires c != nil
+//@   requires[C14] muState == 0
+//@   safety[C14,C08]
+//@   lockdiscipline[C14]
+//@   guarded[C14] conn, address
+//@   ensures[C14] muState == 0
+
+//@ iface modbus.Client.dialContextFunc(ctx context.Context, address string) (conn net.Conn, err error)
+//@   requires[C14] muState == 2
+//@   modifies nothing
+
+//@ func NewTCPClientWithConfig(conf ClientConfig) (res *Client)
+//@   safety[C07,C12]
+//@   fresh[C07] res
+//@   ensures[C07,C08,C12] res != nil && tcpClient(res) && res.conn == nil
+
+//@ func NewRTUClientWithConfig(conf ClientConfig) (res *Client)
+//@   safety[C07,C12]
+//@   fresh[C07] res
+//@   ensures[C07,C08,C12] res != nil && rtuClient(res) && res.conn == nil
+
+//@ func NewTCPClient() (res *Client)
+//@   safety[C07,C12]
+//@   ensures[C07,C08,C12] res != nil && tcpClient(res) && res.conn == nil
+
+//@ func NewRTUClient() (res *Client)
+//@   safety[C07,C12]
+//@   ensures[C07,C08,C12] res != nil && rtuClient(res) && res.conn == nil
